@@ -37,9 +37,13 @@ AddImm12(w) == (w[2] \div 4) + (w[3] % 64) * 64
 AddRn(w) == (w[1] \div 32) + (w[2] % 4) * 8
 
 RegName(n) == <<"x", n>>
-Regs0 == [n \in 0..30 |-> Zero(8)]
+\* registers hold ARBITRARY values on entry: a poison pattern, plus per-register tracking of which
+\* 16-bit chunks have been defined by the code under examination.  Branching through a register
+\* that is not completely defined is status "undef" (the destination would depend on garbage).
+Regs0 == [n \in 0..30 |-> [i \in 1..8 |-> 165]]
+AllChunks == {0, 1, 2, 3}
 
-St0(pc) == [pc |-> pc, x |-> Regs0, written |-> {}, status |-> "run", n |-> 0]
+St0(pc) == [pc |-> pc, x |-> Regs0, def |-> [n \in 0..30 |-> {}], written |-> {}, status |-> "run", n |-> 0]
 
 \* segs: set of [base |-> 8-byte word, bytes |-> seq]
 SegOf(segs, pc) == {sg \in segs : LET d == Sub(pc, sg.base) IN IsSmall(d) /\ Small(d) + 4 <= Len(sg.bytes)}
@@ -51,16 +55,18 @@ StepA(segs, st) ==
     IF IsB(w) THEN [st EXCEPT !.pc = BTarget(st.pc, w), !.n = @ + 1]
     ELSE IF IsNop(w) THEN [st EXCEPT !.pc = AddNat(@, 4), !.n = @ + 1]
     ELSE IF IsRet(w) THEN [st EXCEPT !.status = "ret", !.n = @ + 1]
-    ELSE IF IsBr(w) THEN [st EXCEPT !.pc = st.x[BrReg(w)], !.n = @ + 1]
+    ELSE IF IsBr(w) THEN IF st.def[BrReg(w)] = AllChunks THEN [st EXCEPT !.pc = st.x[BrReg(w)], !.n = @ + 1]
+                         ELSE [st EXCEPT !.status = "undef"]
     ELSE IF IsMovWide(w) THEN
          LET v == IF IsMovz(w) THEN Chunk(Imm16(w), Hw(w)) ELSE SetChunk(st.x[Rd(w)], Imm16(w), Hw(w))
              v2 == IF Is64(w) THEN v ELSE [i \in 1..8 |-> IF i <= 4 THEN v[i] ELSE 0]
-         IN [st EXCEPT !.x[Rd(w)] = v2, !.written = @ \cup {Rd(w)}, !.pc = AddNat(@, 4), !.n = @ + 1]
+         IN [st EXCEPT !.x[Rd(w)] = v2, !.written = @ \cup {Rd(w)}, !.pc = AddNat(@, 4), !.n = @ + 1,
+                       !.def[Rd(w)] = IF IsMovz(w) \/ ~Is64(w) THEN AllChunks ELSE @ \cup {Hw(w)}]
     ELSE IF IsAdrp(w) THEN
          [st EXCEPT !.x[Rd(w)] = Add(PageAlign(st.pc), Times4096(FromInt(SExt21(AdrpImm(w)), 8))),
-                    !.written = @ \cup {Rd(w)}, !.pc = AddNat(@, 4), !.n = @ + 1]
+                    !.def[Rd(w)] = AllChunks, !.written = @ \cup {Rd(w)}, !.pc = AddNat(@, 4), !.n = @ + 1]
     ELSE IF IsAddImm(w) THEN
-         [st EXCEPT !.x[Rd(w)] = AddNat(st.x[AddRn(w)], AddImm12(w)),
+         [st EXCEPT !.x[Rd(w)] = AddNat(st.x[AddRn(w)], AddImm12(w)), !.def[Rd(w)] = st.def[AddRn(w)],
                     !.written = @ \cup {Rd(w)}, !.pc = AddNat(@, 4), !.n = @ + 1]
     ELSE [st EXCEPT !.status = "unknown"]
 
